@@ -365,7 +365,7 @@ def c07(tier):
     js += iter_glue_jobs()
     js.append(J("cross_reject_sound_tri_g2", "C15_cross.c", ["-DNVL=3", "-DNVB=2", "-DGRID=2"], unwind=5, us={"cellBoundaryCrossesGeoLoop.0": 5, "cellBoundaryCrossesGeoLoop.1": 5, "cellBoundaryCrossesGeoLoop.2": 5, "bboxFromGeoLoop.0": 5, "harness.0": 5, "harness.1": 5, "harness.2": 5, "harness.3": 5, "harness.4": 5, "harness.5": 5}, est=600, mem="M", timeout=3000, tier="thorough", core=False,
                 stubs={"polygon": ["lineCrossesLine"]}, bound="quick rejects of the crossing test (used for coarse cells in every mode): triangle polygon loop x one cell-boundary segment, 2^-2 rad grid"))
-    js += with_witness(J("flags", "C07_poly.c", ["-DFLAGS"], unwind=3, est=10, stubs=GEO_STUBS, bound="all 2^32 flag words x all int resolutions"))
+    js += with_witness(J("flags", "C07_poly.c", ["-DFLAGS"], unwind=3, est=10, stubs=GEO_STUBS, bound="all 2^32 flag words x all int resolutions x outer loop of 0-3 vertices"))
     js += with_witness(J("empty", "C07_poly.c", ["-DEMPTY"], unwind=5, est=10, stubs=GEO_STUBS, bound="all valid modes x resolutions"))
     return js
 
@@ -389,7 +389,7 @@ def c15(tier):
     js += [J("capacity_6", "C15_bound.c", ["-DNSEQ=6"], unwind=10, est=20, stubs={"polyfill": ["iterInitPolygon", "iterStepPolygon", "iterDestroyPolygon"]}, bound="sequences <= 6 cells")]
     js += with_witness(J("polyglue", "C07_polyglue.c", [], unwind=5, est=10, stubs={"polygon": ["pointInsideGeoLoop", "cellBoundaryCrossesGeoLoop", "bboxFromGeoLoop"]}, bound="outer loop + 0-2 holes, any loop-level results"))
     js += iter_glue_jobs()
-    js += with_witness(J("flags", "C07_poly.c", ["-DFLAGS"], unwind=3, est=10, stubs=GEO_STUBS, bound="all 2^32 flag words x all int resolutions"))
+    js += with_witness(J("flags", "C07_poly.c", ["-DFLAGS"], unwind=3, est=10, stubs=GEO_STUBS, bound="all 2^32 flag words x all int resolutions x outer loop of 0-3 vertices"))
     js += with_witness(J("bbox_algebra", "C07_poly.c", ["-DBBOX"], unwind=2, est=30, bound="all in-range doubles"))
     return js
 
